@@ -773,9 +773,9 @@ func (x *Exec) binop(st *State, fr *Frame, in *ssa.BinOp, a, b Val) Val {
 		fa, fb := fpTerm(a, w), fpTerm(b, w)
 		switch op {
 		case token.ADD, token.SUB, token.MUL, token.QUO:
-			fop := map[token.Token]string{token.ADD: "fp.add", token.SUB: "fp.sub", token.MUL: "fp.mul", token.QUO: "fp.div"}[op]
+			fop := map[token.Token]string{token.ADD: "fadd", token.SUB: "fsub", token.MUL: "fmul", token.QUO: "fdiv"}[op]
 			r := x.freshVal(st, "f", t)
-			st.assume(sx("=", fpTerm(r, w), sx(fop, "RNE", fa, fb)))
+			st.assume(sx("=", fpTerm(r, w), sx(fmt.Sprintf("%s%d", fop, w), fa, fb)))
 			return r
 		case token.EQL:
 			return cmp(sx("fp.eq", fa, fb))
